@@ -81,6 +81,8 @@ class Exec:
                             v = ev.state_component
                             events.append((i, ev.t, ev.time_id, ev.component_id,
                                            v.copy() if isinstance(v, np.ndarray) else v))
+            except Discard:
+                raise
             except FailStepException:
                 term = ("fail",)
             except TransitionEvent as e:
